@@ -194,6 +194,16 @@ func (c C11Case) tokenFor(r C11Req) (string, bool) {
 	return pool[r.Cred.Idx%len(pool)], true
 }
 
+// c11Long: a token tail of n characters (tokens longer than any fixed-size comparison buffer).
+func c11Long(n int) string {
+	const abc = "abcdefghijklmnopqrstuvwxyzABCDEFGHIJKLMNOPQRSTUVWXYZ0123456789"
+	var b strings.Builder
+	for i := 0; i < n; i++ {
+		b.WriteByte(abc[(i*7+3)%len(abc)])
+	}
+	return b.String()
+}
+
 func credValues(c C11Case, r C11Req) []string {
 	tok, _ := c.tokenFor(r)
 	switch r.Cred.Variant {
@@ -208,6 +218,31 @@ func credValues(c C11Case, r C11Req) []string {
 			tok = strings.ToUpper(tok)
 		} else {
 			tok = strings.ToLower(tok)
+		}
+	case "lastchar":
+		// same length, only the last character differs
+		if n := len(tok); n > 0 {
+			ch := byte('Q')
+			if tok[n-1] == 'Q' {
+				ch = 'R'
+			}
+			tok = tok[:n-1] + string(ch)
+		}
+	case "tailcase":
+		// same length, the second half in the other case
+		h := len(tok) / 2
+		tail := strings.ToUpper(tok[h:])
+		if tail == tok[h:] {
+			tail = strings.ToLower(tok[h:])
+		}
+		tok = tok[:h] + tail
+	case "midchar":
+		if n := len(tok); n > 2 {
+			ch := byte('Q')
+			if tok[n/2] == 'Q' {
+				ch = 'R'
+			}
+			tok = tok[:n/2] + string(ch) + tok[n/2+1:]
 		}
 	case "nul":
 		tok = tok + "\x00"
@@ -292,20 +327,20 @@ func genC11Case() *rapid.Generator[C11Case] {
 		var c C11Case
 		ng := rapid.SampledFrom([]int{0, 1, 1, 2, 3}).Draw(t, "nglobal")
 		for i := 0; i < ng; i++ {
-			c.Global = append(c.Global, fmt.Sprintf("gtok%d-%s", i, rapid.SampledFrom([]string{"a", "Ab", "abc"}).Draw(t, "gs")))
+			c.Global = append(c.Global, fmt.Sprintf("gtok%d-%s", i, rapid.SampledFrom([]string{"a", "Ab", "abc", c11Long(70), c11Long(200)}).Draw(t, "gs")))
 		}
 		nr := rapid.IntRange(1, 3).Draw(t, "nroutes")
 		for i := 0; i < nr; i++ {
 			var r C11Route
 			nt := rapid.SampledFrom([]int{0, 0, 1, 2, 3}).Draw(t, "ntok")
 			for k := 0; k < nt; k++ {
-				r.Tokens = append(r.Tokens, fmt.Sprintf("r%dtok%d-%s", i, k, rapid.SampledFrom([]string{"x", "Xy", "xyz"}).Draw(t, "rs")))
+				r.Tokens = append(r.Tokens, fmt.Sprintf("r%dtok%d-%s", i, k, rapid.SampledFrom([]string{"x", "Xy", "xyz", c11Long(64), c11Long(130)}).Draw(t, "rs")))
 			}
 			c.Routes = append(c.Routes, r)
 		}
 		na := rapid.SampledFrom([]int{0, 1, 1, 2}).Draw(t, "nadmin")
 		for i := 0; i < na; i++ {
-			c.Admin = append(c.Admin, fmt.Sprintf("atok%d", i))
+			c.Admin = append(c.Admin, fmt.Sprintf("atok%d%s", i, rapid.SampledFrom([]string{"", "", "-" + c11Long(61), "-" + c11Long(300)}).Draw(t, "as")))
 		}
 		switch rapid.IntRange(0, 3).Draw(t, "topology") {
 		case 0:
@@ -338,7 +373,7 @@ func genC11Case() *rapid.Generator[C11Case] {
 			r.Cred.Kind = rapid.SampledFrom([]string{"absent", "bearer", "bearer", "bearer", "lower", "upper", "basic", "noscheme", "spaces", "tab", "trailing", "leading"}).Draw(t, "ckind")
 			r.Cred.Src = rapid.SampledFrom([]string{"own", "own", "global", "other", "admin", "none"}).Draw(t, "csrc")
 			r.Cred.Idx = rapid.IntRange(0, 2).Draw(t, "cidx")
-			r.Cred.Variant = rapid.SampledFrom([]string{"exact", "exact", "exact", "prefix", "suffix", "case", "nul", "space", "empty", "plus"}).Draw(t, "cvar")
+			r.Cred.Variant = rapid.SampledFrom([]string{"exact", "exact", "exact", "prefix", "suffix", "case", "nul", "space", "empty", "plus", "lastchar", "lastchar", "tailcase", "midchar"}).Draw(t, "cvar")
 			r.Cred.Multi = rapid.SampledFrom([]string{"", "", "", "bad-first", "bad-second"}).Draw(t, "multi")
 			return r
 		})
